@@ -19,6 +19,8 @@ pub const NAMES: &[&str] = &[
     "with_castling_rights",
     "with_ep",
     "model_impl_validity_disagreements",
+    "mirrored_games",
+    "mirrored_game_plies",
 ];
 const CM: usize = 0;
 const FM: usize = 1;
@@ -28,6 +30,8 @@ const OUT: usize = 4;
 const CR: usize = 5;
 const EP: usize = 6;
 const DISAGREE: usize = 7;
+const MGAMES: usize = 8;
+const MPLIES: usize = 9;
 
 fn mirror_sq_c(s: u8) -> u8 {
     sq(file_of(s as usize), 7 - rank_of(s as usize)) as u8
@@ -144,6 +148,39 @@ pub fn check_pos(ctx: &mut Ctx, p: &Pos, b: &Board) {
     }
 }
 
+/// a game and its colour mirror played on two move chains: the calculated outcome (which looks at
+/// the whole history: repetitions) must be the same with the winner swapped after every ply
+fn mirrored_game(ctx: &mut Ctx, start: &Pos, moves: &[Mv], case: &dyn Fn() -> Value) {
+    use owlchess::MoveChain;
+    let ms = mirror_colours(start);
+    let (Some(ba), Some(bb)) = (board_of(start), board_of(&ms)) else { return };
+    let (mut ca, mut cb) = (MoveChain::new(ba), MoveChain::new(bb));
+    let (mut p, mut q) = (*start, ms);
+    ctx.add(MGAMES, 1);
+    for (i, &m) in moves.iter().enumerate() {
+        let mm = Mv { from: mirror_sq_c(m.from), to: mirror_sq_c(m.to), promo: m.promo, flag: m.flag };
+        let (Ok(mva), Ok(mvb)) = (to_move(&p, m), to_move(&q, mm)) else { return };
+        let (ra, rb) = (ca.push(mva).is_ok(), cb.push(mvb).is_ok());
+        if ra != rb {
+            ctx.violate(case(), format!("ply {}: the move is accepted = {} but its mirror image is accepted = {}", i + 1, ra, rb));
+            return;
+        }
+        if !ra {
+            return;
+        }
+        p = p.apply(m);
+        q = q.apply(mm);
+        ctx.add(MPLIES, 1);
+        ctx.states += 1;
+        ctx.transitions += 2;
+        let (oa, ob) = (ca.calc_outcome(), cb.calc_outcome());
+        if swap_winner(oa) != ob {
+            ctx.violate(case(), format!("after ply {} the game's calculated outcome is {:?} but the mirrored game's is {:?}", i + 1, oa, ob));
+            return;
+        }
+    }
+}
+
 pub fn run(run: &mut Run) {
     run.counter_names = NAMES;
     run.assumptions = vec![
@@ -153,8 +190,33 @@ pub fn run(run: &mut Run) {
     let mut sel = Sel::standard(thorough);
     sel.ray = None;
     run_universes(run, &sel, DISAGREE, &check_pos);
+    // whole games against their mirror images (history-dependent classification: repetitions)
+    let ll = long_lines(thorough);
+    run.par_shards(&format!("MIRRORED GAMES: {} LONG lines and 64 capture-and-return lines against their colour mirrors on move chains", ll.len()), ll.len() + 64, |ctx, i| {
+        if i < ll.len() {
+            let params = crate::universe::long_params(thorough)[i];
+            mirrored_game(ctx, &ll[i].0, &ll[i].1, &|| json!({"kind": "mirrored_game", "family": "LONG", "seed": params.0, "a": params.1, "b": params.2, "max": crate::universe::long_max(thorough)}));
+        } else if let Some((start, line)) = crate::universe::capture_return_line(i - ll.len()) {
+            mirrored_game(ctx, &start, &line, &|| json!({"kind": "mirrored_game", "family": "CAPRET", "sq": i - ll.len()}));
+        }
+    });
 }
 
 pub fn replay(case: &Value, ctx: &mut Ctx) {
+    if case["kind"].as_str() == Some("mirrored_game") {
+        let g = |k: &str| case[k].as_u64().unwrap_or(0) as usize;
+        let c = case.clone();
+        if case["family"].as_str() == Some("CAPRET") {
+            if let Some((start, line)) = crate::universe::capture_return_line(g("sq")) {
+                mirrored_game(ctx, &start, &line, &|| c.clone());
+            }
+        } else {
+            let seeds = crate::universe::seeds();
+            let s = seeds[g("seed") % seeds.len()];
+            let line = crate::universe::long_line(&s, g("a"), g("b"), g("max"));
+            mirrored_game(ctx, &s, &line, &|| c.clone());
+        }
+        return;
+    }
     replay_pos(case, ctx, &check_pos);
 }
